@@ -140,6 +140,7 @@ class fdata:
         Returns:
 
         """
+        self.model.initdisc(self.mesh) # mesh dependent variables (nozzle section) are those of the mesh of this field
         return self.model.nameddata(name, self.data)
 
     def plot(self, name, style="o", axes=plt):
